@@ -163,7 +163,10 @@ Load(ev) ==
               /\ UNCHANGED <<iso, hot, hotc, foreign>>
          [] ev.fam = "hot" /\ ev.op = "all" ->
               /\ hot' = {r \in SeqToSet(ev.rules) : HotValid(r) /\ r.metric = "conc"}
-              /\ hotc' = [id \in {r.id : r \in hot'} |-> IF id \in DOMAIN hotc THEN hotc[id] ELSE <<>>]
+              /\ hotc' = [id \in {r.id : r \in hot'} |->
+                            LET r == CHOOSE x \in hot' : x.id = id
+                                eq == {o \in hot : [o EXCEPT !.id = ""] = [r EXCEPT !.id = ""]}
+                            IN  IF eq # {} THEN hotc[(CHOOSE o \in eq : TRUE).id] ELSE <<>>]
               /\ foreign' = (foreign \/ \E r \in SeqToSet(ev.rules) : r.metric # "conc")
               /\ UNCHANGED <<iso, sys>>
          [] OTHER -> foreign' = TRUE /\ UNCHANGED <<iso, hot, hotc, sys>>
